@@ -134,11 +134,20 @@ def bot_source(desc, pkg):
         for meth, refs in ((dep, a.get('refs', [])), ('feedback', a.get('feedback', []))):
             out.append(f'    def {meth}(self):')
             exprs = []
+            if desc.get('cache_refs'):
+                # keep the referenced instances (as the repository's own test engine does), so that run()
+                # sees what Dataset.load() put into them
+                out.append(f"        if getattr(self, '_cache_{meth}', None) is not None:")
+                out.append(f'            return self._cache_{meth}')
             for r in refs:
                 imp, ex = _ref_expr(desc, base, r)
                 out.append('        ' + imp)
                 exprs.append(ex)
-            out.append('        return [' + ', '.join(exprs) + ']')
+            if desc.get('cache_refs'):
+                out.append(f'        self._cache_{meth} = [' + ', '.join(exprs) + ']')
+                out.append(f'        return self._cache_{meth}')
+            else:
+                out.append('        return [' + ', '.join(exprs) + ']')
         out += [
             f'    {runsig}',
             f'        return vlib.engine.run_hook(self, {pkg["name"]!r}, locals())',
